@@ -306,6 +306,8 @@ func runC17(ctx *core.Ctx) {
 		c := genC17(core.CaseRef{Stream: "c17", Index: i}, r)
 		execC17(ctx, c)
 	})
+	c17NestedStream(ctx)
+	c17TTLStream(ctx)
 }
 
 func execC17(ctx *core.Ctx, c *c17Case) {
